@@ -164,4 +164,13 @@ inline void quiesce(Node& n, std::vector<FakePeer*> peers) {
     for (auto* p : peers) p->close();
     for (int i = 0; i < 2000 && n.connected_peer_count() > 0; ++i) std::this_thread::sleep_for(std::chrono::microseconds(200));
 }
+
+// RAII form: declare AFTER the node and its fake peers so it runs first on every exit path (including a
+// CaseFailure unwinding).  Needed because SessionManager::stop() tears sessions down only when start() was
+// called; a node that merely adopted sockets would otherwise be destroyed under its live reader threads.
+struct QuiesceGuard {
+    Node& node;
+    std::vector<FakePeer*> peers;
+    ~QuiesceGuard() { quiesce(node, peers); }
+};
 }  // namespace vnode
